@@ -5,7 +5,8 @@ cd "$(dirname "$0")"
 . ./env.sh
 prop="$1"; tier="${2:-${VERIF_TIER:-quick}}"; shift; shift || true
 mkdir -p bin evidence replay
-if ! ./build.sh >bin/build.log 2>&1; then
+mode=""; [ "$prop" = C20 ] && mode=race
+if ! ./build.sh $mode >bin/build.log 2>&1; then
   # a tree that does not build is not a property violation
   cat bin/build.log >&2
   echo "harness error: build failed" >&2
